@@ -5,9 +5,10 @@ E-CONF: exhaustive over the 31 non-empty subsets of {eval_f64, eval_i64, eval_de
   1. `cargo check` of /repo for every subset (build failure = violation).
   2. export surface: for every subset and every public item a one-line probe crate is compiled against the
      subset's rmeta; it must compile iff the item is selected.
-  3. behaviour: `featprobe` (harness/featprobe) is built per subset; it enumerates the same bounded input
-     space for each enabled evaluator and prints a digest of all (input, placeholder, outcome bits); every
-     digest must equal the digest of the all-features build. quick: the 5 singletons; thorough: all 31.
+  3. behaviour: `featprobe` (harness/featprobe) is built for each of the 30 proper subsets (4 parallel workers,
+     each with its own target directory); it enumerates the same bounded input space for each enabled
+     evaluator and prints a digest of all (input, placeholder, outcome bits); every digest must equal the
+     digest of the all-features build. quick and thorough differ in the depth of that input space.
 """
 import hashlib, itertools, json, os, shutil, subprocess, sys, time
 from concurrent.futures import ThreadPoolExecutor
@@ -49,10 +50,13 @@ def subsets():
     return out
 
 
-def cargo_check(sub):
+WORKERS = 4
+
+
+def cargo_check(sub, w=0):
     cmd = ["cargo", "check", "--offline", "--manifest-path", os.path.join(REPO, "Cargo.toml"), "--no-default-features",
            "--features", ",".join(sub), "--message-format=json", "--lib"]
-    r = subprocess.run(cmd, env=dict(ENV, CARGO_TARGET_DIR=TGT_CHECK), capture_output=True, text=True)
+    r = subprocess.run(cmd, env=dict(ENV, CARGO_TARGET_DIR="%s-w%d" % (TGT_CHECK, w)), capture_output=True, text=True)
     rmeta, errors, warnings = None, [], 0
     for line in r.stdout.splitlines():
         try:
@@ -83,16 +87,41 @@ def probe(rmeta, item, outdir):
     return r.returncode == 0
 
 
-def build_featprobe(sub):
+def build_featprobe(sub, w=0):
+    tgt = "%s-w%d" % (TGT_PROBE, w)
     cmd = ["cargo", "build", "--offline", "--release", "--features", ",".join(sub)]
-    r = subprocess.run(cmd, cwd=FEATPROBE, env=dict(ENV, CARGO_TARGET_DIR=TGT_PROBE), capture_output=True, text=True)
+    r = subprocess.run(cmd, cwd=FEATPROBE, env=dict(ENV, CARGO_TARGET_DIR=tgt), capture_output=True, text=True)
     if r.returncode != 0:
         return None, r.stderr[-3000:]
     bindir = os.path.join(TGT_PROBE, "bin")
     os.makedirs(bindir, exist_ok=True)
     dst = os.path.join(bindir, "featprobe-" + "+".join(SHORT[f] for f in sub))
-    shutil.copy(os.path.join(TGT_PROBE, "release", "featprobe"), dst)
+    shutil.copy(os.path.join(tgt, "release", "featprobe"), dst)
     return dst, ""
+
+
+def in_workers(items, fn):
+    """Run fn(item, worker_index) over items with WORKERS parallel workers, each owning its target dir."""
+    import queue, threading
+    q = queue.Queue()
+    for i, it in enumerate(items):
+        q.put((i, it))
+    out = [None] * len(items)
+
+    def work(w):
+        while True:
+            try:
+                i, it = q.get_nowait()
+            except queue.Empty:
+                return
+            out[i] = fn(it, w)
+
+    ts = [threading.Thread(target=work, args=(w,)) for w in range(WORKERS)]
+    for t in ts:
+        t.start()
+    for t in ts:
+        t.join()
+    return out
 
 
 def digests(exe, env):
@@ -125,10 +154,11 @@ def main():
     want = repo_hash()
     have = open(stamp).read().strip() if os.path.exists(stamp) else ""
     if have != want:
-        subprocess.run(["cargo", "clean", "--offline", "--manifest-path", os.path.join(REPO, "Cargo.toml"), "-p", "string_calculator"],
-                       env=dict(ENV, CARGO_TARGET_DIR=TGT_CHECK), capture_output=True)
-        subprocess.run(["cargo", "clean", "--offline", "--release", "-p", "string_calculator"], cwd=FEATPROBE,
-                       env=dict(ENV, CARGO_TARGET_DIR=TGT_PROBE), capture_output=True)
+        for w in range(WORKERS):
+            subprocess.run(["cargo", "clean", "--offline", "--manifest-path", os.path.join(REPO, "Cargo.toml"), "-p", "string_calculator"],
+                           env=dict(ENV, CARGO_TARGET_DIR="%s-w%d" % (TGT_CHECK, w)), capture_output=True)
+            subprocess.run(["cargo", "clean", "--offline", "--release", "-p", "string_calculator"], cwd=FEATPROBE,
+                           env=dict(ENV, CARGO_TARGET_DIR="%s-w%d" % (TGT_PROBE, w)), capture_output=True)
     subs = subsets()
     states = transitions = validated = 0
     # 1 + 2: build and export surface for all 31 subsets
@@ -136,8 +166,8 @@ def main():
     shutil.rmtree(probe_dir, ignore_errors=True)
     os.makedirs(probe_dir, exist_ok=True)
     rmetas = {}
-    for sub in subs:
-        ok, rmeta, errors, warnings = cargo_check(sub)
+    checked = in_workers(subs, cargo_check)
+    for sub, (ok, rmeta, errors, warnings) in zip(subs, checked):
         states += 1
         transitions += 1
         name = ",".join(sub)
@@ -178,18 +208,22 @@ def main():
     if len(full) != 5:
         log("featprobe (all features) did not report five digests")
         return 2
-    todo = [s for s in subs if len(s) == 1] if tier == "quick" else [s for s in subs if len(s) < 5]
-    for sub in todo:
-        if ",".join(sub) not in rmetas:
-            continue
-        exe, err = build_featprobe(sub)
+    todo = [s for s in subs if len(s) < 5 and ",".join(s) in rmetas]
+
+    def one(sub, w):
+        exe, err = build_featprobe(sub, w)
+        if exe is None:
+            return (None, err, None)
+        return (exe, "", digests(exe, depth_env))
+
+    results = in_workers(todo, one)
+    for sub, (exe, err, d) in zip(todo, results):
         states += 1
         transitions += 1
         if exe is None:
             violations.append({"kind": "subset-does-not-build", "subset": sub, "expected": "the probe crate builds against this subset",
                                "observed": err[-1200:]})
             continue
-        d = digests(exe, depth_env)
         for f in sub:
             ev = SHORT[f]
             if ev not in d:
@@ -203,7 +237,7 @@ def main():
                 violations.append({"kind": "behaviour-differs", "subset": sub, "evaluator": ev,
                                    "expected": "same outcome as the all-features build: " + y, "observed": x})
         os.remove(exe)
-        log("digests %s ok=%s (%.1fs)" % ("+".join(SHORT[f] for f in sub), all(d.get(SHORT[f]) == full[SHORT[f]] for f in sub), time.time() - t0))
+    log("digests: %d subsets compared with the all-features build (%.1fs)" % (len(todo), time.time() - t0))
     samples.append({"all_features_digests": {k: v[0] for k, v in full.items()}, "inputs_per_evaluator": {k: v[1] for k, v in full.items()}})
     with open(stamp, "w") as fh:
         fh.write(want)
